@@ -100,14 +100,56 @@ func init() {
 		C *corruption `json:"corruption,omitempty"`
 	}
 
+	// liveHealth: the health check and the reference query on the LIVE storage in the middle of a history (pending
+	// changes, slabs in memory that were traversed before and restructured since): a healthy state all the same.
+	liveHealth := func(w *World) *Violation {
+		vl, err := w.ViewLedger()
+		if err != nil {
+			return nil
+		}
+		got, err := atree.CheckStorageHealth(w.Storage, -1)
+		if err != nil {
+			return &Violation{Class: "health.false-alarm.live", Step: w.StepNo, Msg: fmt.Sprintf("CheckStorageHealth rejects the live storage of a healthy history (%d slabs in view): %v", len(vl.Regs), err)}
+		}
+		want := map[RegID]bool{}
+		for _, r := range w.Model.Roots() {
+			want[r.VID] = true
+		}
+		gotSet := map[RegID]bool{}
+		for id := range got {
+			gotSet[RegIDOf(id)] = true
+		}
+		if regSetString(want) != regSetString(gotSet) {
+			return &Violation{Class: "health.roots.live", Step: w.StepNo, Msg: fmt.Sprintf("CheckStorageHealth on the live storage returns roots %s, model roots %s", regSetString(gotSet), regSetString(want))}
+		}
+		for _, r := range w.Model.Roots() {
+			refs, brokenRefs, err := w.Storage.GetAllChildReferences(r.VID.SlabID())
+			if err != nil {
+				return &Violation{Class: "health.refs.live", Step: w.StepNo, Msg: fmt.Sprintf("GetAllChildReferences(%s) failed on the live storage: %v", r.VID, err)}
+			}
+			resolved, _ := reachableFrom(vl, r.VID)
+			if len(brokenRefs) != 0 || idSetString(refs) != regSetString(resolved) {
+				return &Violation{Class: "health.refs.live", Step: w.StepNo, Msg: fmt.Sprintf("GetAllChildReferences(%s) on the live storage = %s broken %s; the parser reaches %s", r.VID, idSetString(refs), idSetString(brokenRefs), regSetString(resolved))}
+			}
+		}
+		w.Stats.Inc("health.live-checked")
+		return nil
+	}
+
 	// buildWorld replays tr (ending with a commit) and returns the world.
 	buildWorld := func(tr *Trace) (*World, *Violation) {
 		w := NewWorld(tr.Config, NewStats())
+		stride := []int{2, 3, 5, 8, 13}[int(tr.Seed%5)]
 		for i := range tr.Steps {
 			st := tr.Steps[i]
 			w.StepNo = i
 			if v := w.execGuarded(&st); v != nil {
 				return w, v
+			}
+			if tr.Seed%3 != 0 && i%stride == stride-1 {
+				if v := liveHealth(w); v != nil {
+					return w, v
+				}
 			}
 		}
 		if v := w.execGuarded(&Step{Op: "commit", Flavour: "fc", Workers: 1}); v != nil {
@@ -497,6 +539,17 @@ func init() {
 		prof.MaxElems = []int{8, 30, 80}[r.Sub("size").Intn(3)]
 		prof.W["crash"], prof.W["dropcache"], prof.W["reopen"] = 0, 0, 0
 		prof.W["a.fill"], prof.W["m.fill"] = 1, 1
+		if r.Sub("restructure").Chance(0.35) {
+			// long-lived trees restructured between two traversals of the live storage: bursts of removals in one
+			// region and of insertions in another (a merge here, a split there, the child count back where it was)
+			prof.W["a.fill"], prof.W["m.fill"], prof.W["a.drain"], prof.W["m.drain"] = 10, 8, 10, 8
+			prof.W["new"] = 1
+			prof.MaxRoots = 2
+			prof.MaxElems = []int{80, 150, 300}[r.Sub("size2").Intn(3)]
+			prof.NestProb = 0
+			cfg.MaxSteps = r.Sub("len2").Range(30, 90)
+			tr.Config.MaxSteps = cfg.MaxSteps
+		}
 		gen := NewGen(r.Sub("workload"), w, prof)
 		for i := 0; i < cfg.MaxSteps; i++ {
 			st := gen.Next()
@@ -526,7 +579,11 @@ func init() {
 		res.Steps = len(tr.Steps)
 		w, v := buildWorld(tr)
 		if v != nil {
-			res.Cut = v
+			if ps.isVerdict(v.Class) {
+				res.Violation = v // the live-storage health check in the middle of the history
+			} else {
+				res.Cut = v
+			}
 			return res
 		}
 		finish := func(v *Violation, c *corruption) *RunResult {
@@ -586,7 +643,11 @@ func init() {
 		res := &RunResult{Seed: tr.Seed, Trace: tr, Steps: len(tr.Steps), Hash: traceHash(tr)}
 		w, v := buildWorld(tr)
 		if v != nil {
-			res.Cut = v
+			if ps.isVerdict(v.Class) {
+				res.Violation = v // the live-storage health check in the middle of the history
+			} else {
+				res.Cut = v
+			}
 			return res
 		}
 		if a.C == nil {
